@@ -872,15 +872,51 @@ pub fn run(c: &Case) -> Outcome {
     Ok(obs)
 }
 
+/// scope of the bounded-exhaustive sub-check: every labelled digraph on 1..=4 nodes and every
+/// labelled undirected graph on 1..=5 nodes (6 in the thorough tier), loops included
+fn scope(tier: Tier) -> (usize, usize) {
+    if tier == Tier::Quick {
+        (4, 5)
+    } else {
+        (4, 6)
+    }
+}
+const ENUM_P: u64 = 12 * 4 * 3;
+fn enum_count(tier: Tier) -> u64 {
+    let (d, u) = scope(tier);
+    small_graph_count(d, u) * ENUM_P
+}
+fn enum_make(tier: Tier, i: u64) -> Case {
+    let (d, u) = scope(tier);
+    let (dir, n, mask) = small_graph(i / ENUM_P, d, u).expect("index within the scope");
+    let p = i % ENUM_P;
+    let script: Vec<u8> = match p / 48 {
+        0 => Vec::new(),
+        // prune / break patterns derived from the index
+        1 => vec![0, 36, 0, 0, 37, 0, 35],
+        _ => vec![0, 0, (i % 7) as u8, 36, 0, 40, 0],
+    };
+    Case {
+        g: raw_explicit(dir, n, mask, 0),
+        enc: (p % 12) as u8,
+        salt: (i % 251) as u8,
+        start: sel_for((p / 12) as usize % 4 % n, n),
+        starts: if i % 3 == 0 { vec![sel_for(n - 1, n)] } else { Vec::new() },
+        script,
+        moves: if i % 5 == 0 { vec![(1, sel_for((i % 4) as usize % n, n))] } else { Vec::new() },
+        filter: (0x9d3b_u16).rotate_left((i % 16) as u32),
+    }
+}
+
 pub fn property() -> Property {
     Property {
         id: "C08",
-        rule: "random multigraphs with self-loops (1..=10 nodes quick, 8 shape classes) stored as Graph / StableGraph+MatrixGraph with vacancies / GraphMap / Csr / adj::List / Reversed / NodeFiltered / EdgeFiltered / UndirectedAdaptor over a StableGraph with vacancies / Reversed<NodeFiltered<StableGraph>>; Dfs/Bfs/DfsPostOrder (with move_to phases and reset) and Topo (new / reset / with_initials) checked against naive reachability, hop distances and a predecessor fixpoint; depth_first_search event streams under generated Continue/Prune/Break scripts (visitor return types Control<B>, Result<Control<B>,E> with Ok-only and Err-as-break answers, and ()) checked by an independent stream replayer and compared exactly with a reference recursion; non-trivial = the run had a cross/forward edge, a prune or break, or (Topo) a cyclic part next to an emitted acyclic part; distinct by fingerprint of the generated case",
+        rule: "random multigraphs with self-loops (1..=10 nodes quick, 8 shape classes) stored as Graph / StableGraph+MatrixGraph with vacancies / GraphMap / Csr / adj::List / Reversed / NodeFiltered / EdgeFiltered / UndirectedAdaptor over a StableGraph with vacancies / Reversed<NodeFiltered<StableGraph>>; Dfs/Bfs/DfsPostOrder (with move_to phases and reset) and Topo (new / reset / with_initials) checked against naive reachability, hop distances and a predecessor fixpoint; depth_first_search event streams under generated Continue/Prune/Break scripts (visitor return types Control<B>, Result<Control<B>,E> with Ok-only and Err-as-break answers, and ()) checked by an independent stream replayer and compared exactly with a reference recursion; non-trivial = the run had a cross/forward edge, a prune or break, or (Topo) a cyclic part next to an emitted acyclic part; distinct by fingerprint of the generated case; bounded-exhaustive sub-check: every labelled digraph on 1..=4 nodes and undirected graph on 1..=5 nodes (6 thorough), loops included, x 12 encodings x start nodes x 3 control scripts",
         assumptions: &[
             "Prune answered to an edge event: both the documented reading (go to Finish) and the implemented one (skip only that edge) are accepted",
             "DfsPostOrder::move_to is only exercised after the previous phase ran to exhaustion",
         ],
         both_profiles: false,
-        subs: vec![sub("traversal/walkers+dfsvisit", 3_000_000, 60_000_000, strategy, run)],
+        subs: vec![sub("traversal/walkers+dfsvisit", 3_000_000, 60_000_000, strategy, run), sub_enum("traversal/all-small-graphs", enum_count, enum_make, run)],
     }
 }
